@@ -28,15 +28,20 @@ POOL = [
     "{ int32_t n = RsV; RdV = (RtV > 0) ? ({ n = n + 1; n; }) : 3; RxV = n++; }",
     "{ HEX_REG_ALIAS_LR = RsV; RdV = P0_NEW; }",
     "{ uint8_t a = RsV; int16_t b = RtV; RddV = (a < b) ? a * b : (a >> 2); }",
+    "{ HEX_REG_ALIAS_LR = (get_npc(pkt) & 0xfffffffe); JUMP(RsV); }",          # plugin parameters pkt / hi / bundle in the emitted code
+    "{ if (PuV & 1) { RdV = RsV; } else { STORE_SLOT_CANCELLED(pkt, slot); } }",
+    "{ EA = RxV; fcirc_add(bundle, RxV, siV, MuV, get_corresponding_CS(pkt, MuV)); RdV = (int32_t)mem_load_u8(EA); }",
+    "{ set_usr_field(bundle, HEX_REG_FIELD_USR_OVF, 1); RdV = get_usr_field(bundle, HEX_REG_FIELD_USR_OVF); }",
     # failing inputs
     "{ RdV = RsV +; }",                                  # parse error
     "{ while (RsV) { RdV = 1; } }",                      # unsupported construct
     "{ RdV = clz32(RsV) + foo(RtV); }",                  # fails in the transformer with a pending hybrid
+    "{ RdV = get_npc(pkt) + foo(bundle, hi); }",         # fails after plugin parameters were read
     "{ const int32_t q = 1; q = RsV; RdV = q; }",        # assignment to const
     "{ P0 = mem_load_u8(RsV) + undefined_fn(3); }",      # fails after attribute flags were set
     "{ int32_t n = RsV; n++; RdV = n; break; }",         # fails at the end
 ]
-PROBES = [0, 1, 2, 3, 4, 5, 6, 7, 8, 9]
+PROBES = [0, 1, 2, 3, 4, 5, 6, 7, 8, 9, 10, 11, 12, 13]
 ENTRIES = ("stmt", "insn")
 
 
@@ -209,7 +214,7 @@ def run(tier):
             rep.add(key, "ok")
     rep.coverage.update(
         states=len(states), transitions=transitions, traces_validated_against_impl=len(results),
-        explanation="histories are executed on the real code (the implementation IS the transition function); pool of 10 behaviours + 6 "
+        explanation="histories are executed on the real code (the implementation IS the transition function); pool of 14 behaviours + 7 "
                     "failing inputs x entry points {compile_c_stmt, transform_insn} x two Compiler instances in one process; all histories "
                     "of length 0 and 1, " + ("all" if thorough else "400 seeded") + " of length 2" + (", 3000 seeded of length 3" if thorough else "")
                     + ", each followed by probes compared with a fresh process; footprint step over every (input, entry point)",
